@@ -421,6 +421,7 @@ class Machine:
         self.raised = 0             # errors raised (planned or injected)
         self.stats = {}             # reach probes
         self.ctx = []               # 'handler' / 'finally' nesting
+        self.blockdepth = 0
 
     def stat(self, key):
         self.stats[key] = self.stats.get(key, 0) + 1
@@ -581,6 +582,14 @@ class Machine:
         if t == "blk":
             return self.block(S, scope)
         if t == "ret":
+            if S[1] is not None and isinstance(S[1], list) and \
+                    S[1][0] == "call":
+                try:
+                    return Ctl("ret", self.ev(S[1], scope))
+                except Err:
+                    if self.blockdepth:
+                        self.stat("return_of_call_raised_in_block")
+                    raise
             return Ctl("ret", None if S[1] is None
                        else self.ev(S[1], scope))
         if t == "brk":
@@ -596,6 +605,16 @@ class Machine:
     def block(self, S, scope):
         """do body catch... finally ... end, as C05 states it"""
         body, catches, fin = S[1], S[2], S[3]
+        counted = bool(catches) or fin is not None
+        if counted:
+            self.blockdepth += 1
+        try:
+            return self._block(body, catches, fin, scope)
+        finally:
+            if counted:
+                self.blockdepth -= 1
+
+    def _block(self, body, catches, fin, scope):
         try:
             try:
                 result = self.run_block(body, scope)
